@@ -157,6 +157,46 @@ def accumulator_roles(ri, lit):
     return roles, problems, deps_in
 
 
+def _add_of(f, r):
+    """operands [l, r] if rvalue r is (the checked form of) an addition"""
+    if r["k"] == "bin" and r["op"].startswith("Add"):
+        return [r["l"], r["r"]]
+    if r["k"] == "use":
+        p = vf.op_place(r["o"])
+        if p is not None:
+            ds = f.defs().get(p[0], [])
+            if len(ds) == 1 and ds[0][0] == "a" and ds[0][3]["r"]["k"] == "bin" and ds[0][3]["r"]["op"].startswith("Add"):
+                return [ds[0][3]["r"]["l"], ds[0][3]["r"]["r"]]
+    return None
+
+
+def _sum_terms(f, o, depth=0):
+    """Definitions of the accumulator behind operand o: [(kind, producers)] with kind in
+    init0 (= 0), add (acc = acc + term), assign (acc = something else), call."""
+    acc = vf.strip_clones(f, o)
+    if acc is None:
+        return []
+    terms = []
+    for d in f.defs().get(acc, []):
+        if d[0] != "a":
+            terms.append(("call", frozenset([("call", d[2].get("f") or "?", 0)])))
+            continue
+        r = d[3]["r"]
+        ops = _add_of(f, r)
+        if ops:
+            selfs = [op for op in ops if vf.strip_clones(f, op) == acc]
+            others = [op for op in ops if vf.strip_clones(f, op) != acc]
+            if len(selfs) == 1 and len(others) == 1:
+                terms.append(("add", frozenset(vf.producers(f, others[0]))))
+            else:
+                terms.append(("assign", frozenset().union(*[vf.producers(f, op) for op in ops])))
+        elif r["k"] == "use" and vf.const_of_operand(f, r["o"]) == "0":
+            terms.append(("init0", frozenset()))
+        else:
+            terms.append(("assign", frozenset(vf.producers(f, r["o"])) if r["k"] == "use" else frozenset([("complex", r["k"], "")])))
+    return terms
+
+
 def closure_true_requires(g, x, db, allow_none=False):
     """In closure g every path that may return true takes the equal-edge of comparison x
     (or, with allow_none, is on the None arm of an Option test: 'filter only if an account is given')."""
@@ -358,4 +398,57 @@ def run(ctx):
         run.instance(R4, {"fn": "apply_api_outputs", "obligation": "height < last_confirmed_height => return without opening a batch"}, held=held)
         if not held:
             run.finding(Finding(R4, ap.id, "refresh writes although the node height is below the wallet's confirmed height", site=ap.loc()))
+    R5 = "C04.R5"
+    run.rule(R5, "log entries are written with the figures of the outputs they account for (debited = value of the inputs locked, credited = value of the outputs created)", floor=6)
+    lk = ctx.fn(SEL + "lock_tx_context")
+    if lk:
+        # amount_debited: a sum whose addends are the values of the coins read back from the batch and locked
+        asg = vf.field_assignments(lk, TLE, "amount_debited")
+        held = False
+        if len(asg) == 1 and asg[0][1]["r"]["k"] == "use":
+            terms = _sum_terms(lk, asg[0][1]["r"]["o"])
+            adds = [p for k, p in terms if k == "add"]
+            held = bool(adds) and all(k in ("init0", "add") for k, _p in terms) and all(vf.has_field(p, OD, "value") and vf.has_call(p, c.WOB + "get") for p in adds)
+            if held:
+                # the addition sits in the loop that locks the coin (same coin local)
+                locks = cfg.find_calls(lk, c.WOB + "lock_output")
+                held = len(locks) == 1
+        run.instance(R5, {"fn": "lock_tx_context", "obligation": "TxLogEntry.amount_debited = sum of OutputData.value of the coins locked"}, held=held)
+        if not held:
+            run.finding(Finding(R5, lk.id, "amount_debited of the sent entry is not the sum of the locked inputs' values", site=lk.loc()))
+        # amount_credited: += the same amount that is written as the change output's value
+        lits = vf.struct_literals(lk, OD)
+        asg = vf.field_assignments(lk, TLE, "amount_credited")
+        held = False
+        if len(lits) == 1 and asg:
+            vloc = vf.strip_clones(lk, vf.literal_field(lits[0][1], "value"))
+            ok = 0
+            for b, st in asg:
+                r = st["r"]
+                ops = _add_of(lk, r)
+                if ops and any(vf.strip_clones(lk, o) == vloc for o in ops):
+                    ok += 1
+            held = ok == len(asg)
+        run.instance(R5, {"fn": "lock_tx_context", "obligation": "TxLogEntry.amount_credited += the value written to the change output"}, held=held)
+        if not held:
+            run.finding(Finding(R5, lk.id, "amount_credited of the sent entry is not the sum of the change outputs' values", site=lk.loc()))
+        for fld, src in (("tx_slate_id", (c.LW + "slate::Slate", "id")), ("fee", (c.LW + "types::Context", "fee"))):
+            vf.check_field_source(ctx, R5, lk, dest=(TLE, fld), src_field=src, what="TxLogEntry.%s := %s.%s" % (fld, src[0].split("::")[-1], src[1]))
+    bro = ctx.fn(SEL + "build_recipient_output")
+    if bro:
+        lits = vf.struct_literals(bro, OD)
+        asg = vf.field_assignments(bro, TLE, "amount_credited")
+        held = False
+        if len(lits) == 1 and len(asg) == 1 and asg[0][1]["r"]["k"] == "use":
+            pv = vf.producers(bro, vf.literal_field(lits[0][1], "value"))
+            pc = vf.producers(bro, asg[0][1]["r"]["o"])
+            held = pv == pc and vf.has_field(pc, c.LW + "slate::Slate", "amount")
+        run.instance(R5, {"fn": "build_recipient_output", "obligation": "TxLogEntry.amount_credited = OutputData.value = slate.amount"}, held=held)
+        if not held:
+            run.finding(Finding(R5, bro.id, "amount_credited of the receive entry differs from the value of the output created", site=bro.loc()))
+        vf.check_field_source(ctx, R5, bro, dest=(TLE, "tx_slate_id"), src_field=(c.LW + "slate::Slate", "id"), what="TxLogEntry.tx_slate_id := slate.id")
+    R6 = "C04.R6"
+    run.rule(R6, "refresh transitions follow the node's answer (present => Unspent, absent => Spent / Reverted)", floor=1)
+    from .shared import refresh_transitions
+    refresh_transitions(ctx, R6)
     run.not_decided += ["equality with the node's UTXO set", "the ledger identity credits - debits = total + locked", "confirmation / maturity arithmetic"]
